@@ -12,7 +12,10 @@ specs: ScoreAssign.tla (the kernel's loop body as three named branches TakeP / R
        way the indexer was built (indexer(gv=), indexer_from_colfile, indexer_from_colfile_and_ucell, .gv assigned,
        readgvfile) and prepared (directly / assigntorings() first); configuration lay = every history of 1..2 calls over 2
        grains from every label buffer content x 108 layout combinations, invariants LayoutBlind + the property on the
-       LOGICAL array; configuration ravelK = a caller flattening the held array in memory order: TLC MUST refute BestGrain).
+       LOGICAL array; configuration ravelK = a caller flattening the held array in memory order: TLC MUST refute BestGrain;
+       configuration nf = NON-FINITE peaks: a g-vector with NaN / +inf / -inf in one or all components (5 kinds) has no hkl
+       error below the tolerance for any UBI - the logical table holds E on every row whatever its finite components would
+       score - x all 16 tables x every history of 1..2 calls x 4 label buffer contents x 23 floating layout combinations).
 Mode A: EVERY behaviour TLC emits is realised with exactly representable UBIs / g-vectors; behaviours sharing a
         presentation sequence are packed as the peaks of one array, tiled to 5*4096+7 peaks (6 OpenMP chunks), and run
         through raw score_and_assign calls at 1/2/3/5/8/16/32 threads, two label numberings, two initial error values:
@@ -34,7 +37,11 @@ Mode C: seeded realistic runs (random / twinned / duplicated UBIs, noisy peaks, 
         columns as the columns of one array under a value preserving layout, laid out UBIs, list translations and stale
         labels / drlv2 columns of several item types.  Reference errors are formed from the logical binary64 values of
         what was handed over, by the harness's own numpy (c07_lib.hkl_err, c09_sim.forward for
-        per-grain g-vectors); runs are recorded (ranks of reference errors, labels and rank of stored error after every
+        per-grain g-vectors).  Non-finite family: the same generators with seeded rows (first / last peak of every OpenMP
+        chunk included) made non-finite (NaN, +inf, -inf in one or all components; a whole NaN gx / gy / gz column; NaN /
+        inf detector positions or omega on the assignlabels route, in memory and through files): the reference error of such
+        a peak is +inf for every grain (indexed by no grain -> unassigned, not counted, stored error untouched), the finite
+        rows are judged as ever; stored errors are compared so that a NaN fails (never through abs() < eps alone); runs are recorded (ranks of reference errors, labels and rank of stored error after every
         observable call) and validated by TLC in blocks of 256 peaks; the model's per-block counts are summed.
 """
 import os, sys, json, time, threading, contextlib
@@ -46,7 +53,9 @@ PROP = "C07"
 TOTAL = 5 * L.CHUNK + 7                     # 6 chunks: with 2, 3, 5 threads the chunks wrap around the threads
 CONFIGS = {"q": ("ScoreAssign_q.cfg", 3, 24576), "hist": ("ScoreAssign_hist.cfg", 2, 29952),
            "dirty_t": ("ScoreAssign_dirty_t.cfg", 3, 221184), "hist_t": ("ScoreAssign_hist_t.cfg", 2, 122880),
-           "lay": ("ScoreAssignLayout_lay.cfg", 2, 16 * 6 * 4 * 108), "ravelK": ("ScoreAssignLayout_ravelK.cfg", 2, 0)}
+           "lay": ("ScoreAssignLayout_lay.cfg", 2, 16 * 6 * 4 * 108), "ravelK": ("ScoreAssignLayout_ravelK.cfg", 2, 0),
+           "nf": ("ScoreAssignLayout_nf.cfg", 2, 16 * 6 * 4 * 23 * 5)}
+LAYOUT_CONFIGS = ("lay", "nf")               # behaviours carry layout tags; raw calls / column routes once per (glay, ulay)
 ACTIONS = ("Call", "TakeP", "ReleaseP", "LeaveP", "Return")
 
 
@@ -67,8 +76,10 @@ def load_mods():
 # ---------------------------------------------------------------------------------------------
 # mode A
 
-def tlc_tables(name, tier, out):
+def tlc_tables(name, tier, out, after=None):
     cfg, G, nexp = CONFIGS[name]
+    if after is not None:                     # memory: not more JVMs at a time than before configuration nf existed
+        after.join()
     try:
         res = common.run_tlc(spec_module(cfg), os.path.join(common.SPECS, cfg), workers=(6 if name != "ravelK" else 2), timeout=2400,
                              coverage=(tier == "thorough" and name != "ravelK"))
@@ -96,7 +107,7 @@ def mode_a(chk, mods, name, res, tier):
     if name == "ravelK":
         return model_must_flag(chk, name, res)
     need = ACTIONS if name != "q" else ("Call", "TakeP", "LeaveP", "Return")
-    if name == "lay":
+    if name in LAYOUT_CONFIGS:
         need = ()                 # the actions are the instantiated ScoreAssign's (coverage is reported under that module's names)
     chk.add_tlc("%s %s" % (spec_module(cfg), cfg), res, require_cover=(need if res.coverage else ()))
     if res.violated:
@@ -106,15 +117,21 @@ def mode_a(chk, mods, name, res, tier):
         raise common.MachineryError("%s: expected %d finished behaviours, got %d" % (cfg, nexp, len(recs)))
     if name == "lay" and set(L.rec_lay(t) for t in recs) != set(L.combos()):
         raise common.MachineryError("%s: the layout combinations emitted are not c07_lib.combos()" % cfg)
+    if name == "nf" and (set(L.rec_lay(t) for t in recs) != set(L.nf_combos()) or set(k for t in recs for k in t["nf"]) != set(L.NF_KINDS)):
+        raise common.MachineryError("%s: the layout combinations / non-finite kinds emitted are not c07_lib.nf_combos() x NF_KINDS" % cfg)
     cnt = chk.notes.setdefault("mode_A", {})
     fam = cnt.setdefault(name, {"behaviours": len(recs), "release_branch_behaviours": 0, "stale_error_behaviours": 0, "fight": 0,
                                 "assign_peaks_to_grains": 0, "getind": 0, "prepare_peaks_from_2d": 0, "kernel_calls": 0})
-    if name == "lay":
-        fam["layout_combinations"] = len(L.combos())
+    if name in LAYOUT_CONFIGS:
+        fam["layout_combinations"] = len(set(L.rec_lay(t) for t in recs))
+    if name == "nf":
+        fam["non_finite_kinds"] = list(L.NF_KINDS)
     groups = sorted(L.group_by_order(recs).items())
     for (order, lay), cases in groups:
         pk = L.Packed(cases, G)
-        total = max(TOTAL, pk.P + 7)
+        # configuration nf: 2 chunks (mode C's non-finite family puts such peaks at every chunk edge of larger arrays)
+        base = TOTAL if name != "nf" else L.CHUNK + 7
+        total = max(base, pk.P + 7)
         for t in cases:
             k2 = any(sum(1 for r in range(pk.R) if t["err"][r][k] < 3) >= 2 for k in range(pk.K))
             chk.case((name, json.dumps(t["err"]), order, tuple(t["lab0"]), tuple(t["dr0"]), lay), nontrivial=k2)
@@ -131,6 +148,8 @@ def mode_a(chk, mods, name, res, tier):
         plans = (("one", L.THREADS, ((1.0, 2.0) if name == "q" else (1.0,))), ("zero", (3, 16), (2.0,)))
         if name == "lay":
             plans = (("one", (1, 5), (1.0,)), ("zero", (3,), (2.0,))) if lay[2:] == L.PLAIN[2:] else ()
+        if name == "nf":
+            plans = (("one", (1, 3, 16), (1.0,)), ("zero", (5,), (2.0,))) if lay[2:] == L.PLAIN[2:] else ()
         try:
             for labmap, threads, inits in plans:
                 probs += pk.run_raw(c, threads, total, labmap=labmap, inits=inits, lay=lay)
@@ -141,7 +160,7 @@ def mode_a(chk, mods, name, res, tier):
             probs.append(("score_and_assign raised %s: %s (order %s, %s)" % (type(e).__name__, str(e)[:300], list(order), L.lay_tag(lay)), cases[0]))
         route_probs = []
         try:
-            route_probs += caller_routes(c, mods, fam, pk, cases, order, G, lay, ((1, 3, 16) if name != "lay" else (3,)))
+            route_probs += caller_routes(c, mods, fam, pk, cases, order, G, lay, ((1, 3, 16) if name not in LAYOUT_CONFIGS else (3,)), base=base)
         except common.MachineryError:
             raise
         except Exception as e:
@@ -156,7 +175,7 @@ def mode_a(chk, mods, name, res, tier):
     return recs
 
 
-def caller_routes(c, mods, fam, pk, cases, order, G, lay=L.PLAIN, fight_threads=(1, 3, 16)):
+def caller_routes(c, mods, fam, pk, cases, order, G, lay=L.PLAIN, fight_threads=(1, 3, 16), base=TOTAL):
     """the callers on the behaviours they can produce (every one is a fresh single pass); returns [(what, behaviour)].
     The indexer routes (fight_over_peaks, getind) are driven for every layout tag; the columnfile routes know nothing of
     build / prep and are driven once per (g-vector layout, UBI layout)"""
@@ -164,24 +183,24 @@ def caller_routes(c, mods, fam, pk, cases, order, G, lay=L.PLAIN, fight_threads=
     colroutes = tuple(lay[2:]) == L.PLAIN[2:]
     fresh = [t for t in cases if t["pass"] == 1 and all(x == -1 for x in t["lab0"])]
     if fresh:
-        probs += L.Packed(fresh, G).run_fight(c, mods, fight_threads, max(TOTAL, len(fresh) * pk.K + 7), lay=lay)
+        probs += L.Packed(fresh, G).run_fight(c, mods, fight_threads, max(base, len(fresh) * pk.K + 7), lay=lay)
         fam["fight"] += len(fresh)
     # a ZERO filled label buffer with zero based labels = the buffer holds the label of the first grain presented
     zf = [t for t in cases if t["pass"] == 1 and all(x == L.row_label(order[0], G) for x in t["lab0"])]
     if zf and len(order) > 1 and colroutes:
-        probs += L.Packed(zf, G).run_nb(c, mods, ((1, 5) if len(fight_threads) > 1 else (5,)), max(TOTAL, len(zf) * pk.K + 7), lay=lay)
+        probs += L.Packed(zf, G).run_nb(c, mods, ((1, 5) if len(fight_threads) > 1 else (5,)), max(base, len(zf) * pk.K + 7), lay=lay)
         fam["assign_peaks_to_grains"] += len(zf)
     if len(order) == 1:
         gi = [t for t in cases if t["lab0"] == [0] and t["dr0"] == [3]]                              # a value that is not the label
         own = [t for t in cases if t["lab0"] == [L.row_label(order[0], G)] and t["dr0"] == [3]]    # the label itself (grain_label=0)
         if gi:
-            probs += L.Packed(gi, G).run_getind(c, mods, TOTAL, lay=lay)
+            probs += L.Packed(gi, G).run_getind(c, mods, max(base, len(gi) * pk.K + 7), lay=lay)
             fam["getind"] += len(gi)
             if colroutes:
-                probs += L.Packed(gi, G).run_sino(c, mods, TOTAL, 5, lay=lay)
+                probs += L.Packed(gi, G).run_sino(c, mods, max(base, len(gi) * pk.K + 7), 5, lay=lay)
                 fam["prepare_peaks_from_2d"] += len(gi)
         if own and colroutes:
-            probs += L.Packed(own, G).run_sino(c, mods, TOTAL, 0, lay=lay)
+            probs += L.Packed(own, G).run_sino(c, mods, max(base, len(own) * pk.K + 7), 0, lay=lay)
             fam["prepare_peaks_from_2d"] += len(own)
     return probs
 
@@ -293,10 +312,18 @@ class ModeC(object):
         ubis_in = ubis
         gv, ubis, gvl, ubl, sc = L.realise(gv, ubis_in, lay[0], lay[1], 4096)
         errs = np.array([L.hkl_err(u, gvl) for u in ubl])
+        nfr = ~L.finite_rows(gvl)                 # a non-finite g-vector has no hkl error below any tolerance: indexed by no grain
+        errs[:, nfr] = np.inf
+        if nfr.any() and (lay[0] in L.INT_LAYOUTS or lay[3] != "direct"):
+            raise common.MachineryError("non-finite g-vectors need a floating layout and no assigntorings() (it raises on them)")
         rk = L.Ranked(errs, tol * tol, L.ident_matrix(ubl))
         if not rk.keep.any():
             return False
         self.hit("layout " + L.lay_tag(lay))
+        if nfr.any():
+            meta["non_finite_rows"] = np.nonzero(nfr)[0].tolist()[:40]
+            self.hit("non_finite_cases")
+            self.hit("non_finite_peaks", int(nfr.sum()))
         ident = list(range(1, G + 1))
         # (a) fresh buffers, labels 1..G, every thread count gives the same log
         rows = [(ubis[g], tol, g + 1) for g in range(G)]
@@ -314,6 +341,12 @@ class ModeC(object):
         self.hit("raw_fresh")
         chk.case((cid,), nontrivial=rk.contested)
         final_lab, final_dr = logs[-1][2], logs[-1][3]
+        bad = nfr & ((final_lab != -1) | ~(final_dr == 1.0))
+        if bad.any():
+            k0 = int(np.nonzero(bad)[0][0])
+            chk.violation("score_and_assign: %d of %d peaks with a non-finite g-vector are not left unassigned with their stored error untouched "
+                          "(peak %d %s: label %d, stored error %r)" % (int(bad.sum()), int(nfr.sum()), k0, gvl[k0].tolist(), final_lab[k0], float(final_dr[k0])),
+                          dict(meta, route="raw, fresh buffers"))
         # (b) another order: same answer apart from exact ties (judged against the argmin, not against run (a))
         order2 = list(reversed(order)) if G > 1 else order
         ev2 = L.record(c, rows, gv, order2, 4, np.full(K, -1, np.int32), np.full(K, 2.0))
@@ -370,7 +403,7 @@ class ModeC(object):
             self.hit("fight_over_peaks")
         # (d2) indexer.saveindexing: a g-vector file read back, assigntorings(), the grains, the report written: it makes
         #      .gv contiguous and runs fight_over_peaks itself (small cases: one text line per peak and grain)
-        if not big:
+        if not big and not nfr.any():             # (assigntorings() raises ValueError on a non-finite g-vector: no assignment at all)
             with self.guarded("indexer.saveindexing", meta):
                 ind = L.build_indexer(mods, gv, gvl, tol, "readgvfile", "rings", sc=sc)
                 if lay[2] == "set_gv":
@@ -658,6 +691,20 @@ def mode_c(chk, mods, tier, rng, extra=()):
     mc.raw_case("cfifty", ubis, gv, tol, [int(x) for x in rng.permutation(50) + 1], rng, True, tier, lay=("F", "F", "from_colfile_and_ucell", "direct"))
     ubis, gv, tol = L.make_case(rng, 1, L.CHUNK + 5, big=True)
     mc.raw_case("cone", ubis, gv, tol, [1], rng, False, tier, lay=("cols2", "C", "from_colfile", "rings"))
+    # non-finite g-vectors (NaN / +inf / -inf in one or all components of seeded rows, a whole NaN column) through every
+    # route of raw_case, under rotating floating layouts; the finite rows are judged as in every other case
+    flays = L.float_combos()
+    nnf = 10 if tier == "quick" else 60
+    for i in range(nnf + 2):
+        bigcase = (i == nnf)
+        G = int(rng.integers(1, 9)) if not bigcase else int(rng.integers(10, 21))
+        K = int(rng.integers(10, 200)) if not bigcase else 2 * L.CHUNK + 8
+        ubis, gv, tol = L.make_case(rng, G, K, big=bigcase)
+        gv, _ = L.inject_nonfinite(rng, gv, column=(int(rng.integers(0, 3)) if i == nnf + 1 else None))
+        lay = flays[(lay0 + 37 * i) % len(flays)] if i % 3 else ("F", "C", "from_colfile", "direct")     # what the notebooks do
+        mc.raw_case("nf%d" % i, ubis, gv, tol, [int(x) for x in rng.permutation(G) + 1], rng, bigcase, tier, lay=lay)
+        if len(chk.violations) > 10:
+            break
     # refinegrains.assignlabels: per-grain g-vectors
     plan = [("shared", 3, "F", 0.05), ("shared", 4, "F", 0.1), ("shared", 5, "F", 0.02), ("same", 3, "F", 0.05), ("distinct", 4, "F", 0.05)]
     if tier == "thorough":
@@ -674,8 +721,41 @@ def mode_c(chk, mods, tier, rng, extra=()):
     case = L.make_geo_case(rng, mods, kpar0 + 3, 14, "shared", lattice="P", nstray=400)          # > 4096 peaks: two OpenMP chunks
     mc.geo_case("gbig", case, 0.05, [list(range(14)), [int(x) for x in rng.permutation(14)]], (1, 4, 16), rng, ntrace=1, lay0=glay0 + 1)
     mc.hit("assignlabels_big_case_peaks", len(case["sc"]))
+    # non-finite detector positions / omega (a "nan" in a peak file, a failed spatial correction): compute_gv hands the kernel
+    # non-finite g-vectors for every grain; in memory (3 orders, 1 and 4 threads, second call) and through files
+    for i, (fam, G) in enumerate((("shared", 4), ("distinct", 3)) if tier == "quick" else (("shared", 4), ("distinct", 3), ("same", 3), ("shared", 5))):
+        case = L.make_geo_case(rng, mods, kpar0 + 11 + i, G, fam, lattice="F")
+        n = len(case["sc"])
+        rows = rng.choice(n, size=max(6, n // 12), replace=False)
+        for j, k in enumerate(rows):
+            case[("sc", "fc", "omega")[j % 3]][k] = (np.nan, np.inf, -np.inf)[(j // 3 + i) % 3]
+        if i % 2:
+            case["sc"][rows] = np.nan
+        orders = [list(range(G)), [int(x) for x in rng.permutation(G)], list(range(G))[::-1]]
+        mc.geo_case("gnf%d" % i, case, 0.05, orders, (1, 4), rng, files=((True,) if i % 2 == 0 else (False,)), twice=(i % 2 == 1), lay0=glay0 + i)
+        mc.hit("assignlabels_non_finite_cases")
+        mc.hit("assignlabels_non_finite_peaks", int((~L.finite_rows(np.array((case["sc"], case["fc"], case["omega"])).T)).sum()))
     mc.verdicts = mc.validate(extra=extra)
     return mc
+
+
+def observe_rings_nonfinite(chk, mods):
+    """indexer.assigntorings() on a peak list with a NaN g-vector: it raises (no assignment is produced: outside the
+    statement; why configuration nf and the non-finite family use prep = direct), recorded as an observation"""
+    try:
+        with L.quiet():
+            uc = mods["unitcell"].unitcell([4.0, 4.0, 4.0, 90, 90, 90], "P")
+            gv = np.array([[0.25, 0, 0], [0, 0.5, 0], [np.nan, 0.25, 0], [0.25, 0.25, 0]])
+            ind = mods["indexing"].indexer(unitcell=uc, gv=gv, hkl_tol=0.05, wavelength=0.3)
+            ind.ds_tol = 0.01
+            try:
+                ind.assigntorings()
+                out = "returns"
+            except Exception as e:
+                out = "raises %s: %s" % (type(e).__name__, str(e)[:100])
+    except Exception as e:                                       # an observation must never decide the verdict
+        out = "probe failed: %r" % (e,)
+    chk.notes.setdefault("observations", []).append("indexer.assigntorings() with a NaN g-vector among the peaks: %s" % out)
 
 
 def observe_getind_default(chk, mods, rng):
@@ -714,7 +794,10 @@ def run(tier, replay=None):
                 "assign_peaks_to_grains / getind / prepare_peaks_from_2d on the behaviours they can produce; ScoreAssignLayout.tla lay: every "
                 "history of <= 2 calls over 2 grains x 4 label buffer contents x 108 memory layout combinations (12 g-vector layouts x 5 indexer "
                 "builds x direct / assigntorings, 6 UBI layouts) realised as numpy arrays with that address map / item type on every route; "
-                "mode C: every case under one of those combinations (rotating) incl. saveindexing; seeded runs with 1..50 "
+                "nf: the same histories with the peak's g-vector NON-FINITE (NaN / +inf / -inf in one or all components: 5 kinds x 16 tables x 23 "
+                "floating layout combinations): indexed by no grain on every route; "
+                "mode C: every case under one of those combinations (rotating) incl. saveindexing; a family with seeded non-finite rows "
+                "(every chunk edge, a NaN column; NaN / inf detector columns for assignlabels) through every route; seeded runs with 1..50 "
                 "UBIs (twins, overlapping lattices), 10..1e5 peaks, tolerances 0.02..0.5, random grain orders through every route "
                 "(see notes mode_C_routes), refinegrains.assignlabels on simulated detector peaks with shared / equal / distinct grain "
                 "positions; recorded and validated by TLC in blocks of 256 peaks; non-trivial = a peak is within tolerance of >= 2 "
@@ -733,10 +816,11 @@ def run(tier, replay=None):
     if replay:
         return run_replay(chk, mods, replay)
     rng = np.random.default_rng(common.seed())
-    names = ("q", "hist", "lay", "ravelK") if tier == "quick" else ("q", "hist_t", "dirty_t", "lay", "ravelK")
+    names = ("q", "hist", "lay", "ravelK", "nf") if tier == "quick" else ("q", "hist_t", "dirty_t", "lay", "ravelK", "nf")
     out = {}
     common.scratch()
-    th = [threading.Thread(target=tlc_tables, args=(n, tier, out)) for n in names]
+    th = [threading.Thread(target=tlc_tables, args=(n, tier, out)) for n in names if n != "nf"]
+    th.append(threading.Thread(target=tlc_tables, args=("nf", tier, out, th[names.index("lay")])))      # nf starts when lay has ended
     for t in th:
         t.start()
     try:
@@ -744,6 +828,7 @@ def run(tier, replay=None):
         mc = mode_c(chk, mods, tier, rng, extra=selftest_records(mods))
         selftest_verdicts(mc.verdicts)
         observe_getind_default(chk, mods, rng)
+        observe_rings_nonfinite(chk, mods)
     finally:
         for t in th:
             t.join()
@@ -823,6 +908,16 @@ def selftest_tables(mods, chk=None):
         raise common.MachineryError("selftest: correct table rejected under a column major layout")
     if not pk.run_raw(c, (1,), TOTAL, lay=colmajor, scramble=True) or pk.run_raw(c, (1,), TOTAL, scramble=True):
         raise common.MachineryError("selftest: a column major array flattened in memory order accepted (or a C ordered one rejected)")
+    # a non-finite peak whose finite components score 0 for grain 1: unassigned is accepted on the real kernel; the same record
+    # over the FINITE peak (the kernel takes it) is rejected: a peak taken although the model says unassigned is seen
+    tn = {"err": [[0], [3]], "order": [1, 2], "lab0": [-1], "dr0": [3], "labels": [-1], "drlv2": [3], "rets": [0, 0],
+          "snaps": [{"labels": [-1], "drlv2": [3]}] * 2, "noties": 1, "pass": 1, "nf": ["nan_one"]}
+    if L.Packed([tn], 2).run_raw(c, (1, 3), TOTAL) or L.Packed([tn], 2).run_fight(c, mods, (3,), 47):
+        raise common.MachineryError("selftest: non-finite peak left unassigned rejected")
+    if not L.Packed([dict(tn, nf=["fin"])], 2).run_raw(c, (1,), 40):
+        raise common.MachineryError("selftest: a peak taken against the model's 'unassigned' accepted")
+    if L.Ranked(np.array([[np.nan, 0.001]]), 0.01, [[True]]).dr_rank(np.array([np.nan, np.nan]), init=1.0, floor=0.01).tolist() != [-2, -2]:
+        raise common.MachineryError("selftest: a NaN stored error is given a rank")
     t2 = json.loads(json.dumps(t))
     t2["labels"] = [1, 1]
     t2["snaps"] = [{"labels": [1, 1], "drlv2": [0, 3]}] * 3          # what a kernel without the release branch would leave
